@@ -127,7 +127,7 @@ def make_run(op, wtype):
         fsmod.ThreadPoolExecutor = threads.pool_class(sched, "thread")
         fsmod.ProcessPoolExecutor = threads.pool_class(sched, "process")
         fsmod.gc = NoGC
-        restore = sched.install_waiters()
+        restore = sched.install_waiters((fsmod,))
         bad = None
         sched.start_tracing()
         try:
